@@ -24,6 +24,10 @@ type routeRow struct {
 // extReached, when non-nil, additionally collects the out-of-module functions referenced during funcsReached.
 var extReached map[string]bool
 
+// extTouchesRequest: out-of-module functions seen so far whose signature mentions a net/http or net/url type (only those
+// can wrap a handler or rewrite a request / URL; pure helpers such as slices.Backward cannot).
+var extTouchesRequest = map[string]bool{}
+
 // funcsReached collects the in-module functions referenced from e, following bodies of in-module functions that are not
 // themselves targets, up to the given depth.
 func funcsReached(c *Ctx, info *types.Info, e ast.Node, depth int, stop map[string]bool, out map[string]bool, seen map[*types.Func]bool) {
@@ -43,7 +47,24 @@ func funcsReached(c *Ctx, info *types.Info, e ast.Node, depth int, stop map[stri
 		}
 		if !inModule(fn.Pkg().Path()) {
 			if extReached != nil {
-				extReached[calleeName(fn)] = true
+				nm := calleeName(fn)
+				extReached[nm] = true
+				if sig, ok := fn.Type().(*types.Signature); ok {
+					touches := func(tp types.Type) bool {
+						ts := tp.String()
+						return strings.Contains(ts, "net/http.") || strings.Contains(ts, "net/url.")
+					}
+					hit := sig.Recv() != nil && touches(sig.Recv().Type())
+					for i := 0; i < sig.Params().Len(); i++ {
+						hit = hit || touches(sig.Params().At(i).Type())
+					}
+					for i := 0; i < sig.Results().Len(); i++ {
+						hit = hit || touches(sig.Results().At(i).Type())
+					}
+					if hit {
+						extTouchesRequest[nm] = true
+					}
+				}
 			}
 			return true
 		}
@@ -291,8 +312,8 @@ func classifyMiddleware(c *Ctx, info *types.Info, a ast.Expr) (why, bad string) 
 			ext := extReached
 			extReached = nil
 			for _, en := range sortedKeysB(ext) {
-				if !middlewareExtAllow[en] {
-					return "", "in-module middleware reaches " + en + ", which is not on the reviewed list of library calls a middleware of the provider may make (a call that rewrites the request - its path, query or form - before the handler parses it changes what the handler sees)"
+				if !middlewareExtAllow[en] && extTouchesRequest[en] {
+					return "", "in-module middleware reaches " + en + ", whose signature handles http / url values and which is not on the reviewed list of library calls a middleware of the provider may make (a call that rewrites the request - its path, query or form - before the handler parses it changes what the handler sees)"
 				}
 			}
 			names := make([]string, 0, len(out))
